@@ -276,3 +276,10 @@ func WithTimeout(parent context.Context, d time.Duration) (context.Context, cont
 func WithDeadline(parent context.Context, t time.Time) (context.Context, context.CancelFunc) {
 	return context.WithDeadline(parent, t)
 }
+
+func ContextAfterFunc(ctx context.Context, f func()) (stop func() bool) {
+	return context.AfterFunc(ctx, f)
+}
+func OnceFunc(f func()) func()                                 { return sync.OnceFunc(f) }
+func OnceValue[T any](f func() T) func() T                     { return sync.OnceValue(f) }
+func OnceValues[T1, T2 any](f func() (T1, T2)) func() (T1, T2) { return sync.OnceValues(f) }
